@@ -108,6 +108,28 @@ CLAIMED.update({
         design='DESIGN.md section 4, C09'),
 })
 
+CLAIMED.update({
+    'C15': dict(
+        category='other',
+        technique='ownership/layering rule over write effects, path-sensitive decision table on the CFG (branch assumptions), name-table bijection, guard analysis of __getattr__',
+        text=("Decides: __setattr__, _convert_attribute_to_child and __getattr__ store nothing themselves (every effect is a call of the explicit API); for the six "
+              "combinations of (child found, value None, value is an element) exactly the corresponding explicit operation is reachable; the class lookup is dominated by "
+              "the possible-children membership test; xml_<name> <-> element name is a bijection agreeing with the class naming rule on all 441 names; __getattr__ returns "
+              "stored attributes by presence, None for declared attributes and possible children, the child when present, AttributeError otherwise; attribute names are "
+              "disjoint from everything that diverts a dot access (known finding KF-11: name)."),
+        note="Equivalence of the *explicit* operations themselves (what add_child/replace_child do) is the business of C01/C06/C10.",
+        design='DESIGN.md section 4, C15'),
+    'C16': dict(
+        category='other',
+        technique='sink-discipline rule (ast), dominance of the fresh-element construction (CFG), interprocedural write-effect summaries specialised on intelligent_choice=False',
+        text=("Decides: to_string returns ET.tostring(element, encoding='unicode') plus whitespace constants; the element is built only by ET.Element(name, {k: str(v)}), "
+              ".text = str(value), append(child.et_xml_element), ET.indent, with no markup in string constants; a fresh element is constructed on every path and the "
+              "et_xml_element property rebuilds on every access; the call closure of to_string(intelligent_choice=False), with the constant propagated through four calls, "
+              "writes no primary state of any existing object; the only parent-dependent read of the builder is get_level() for ET.indent."),
+        note="ElementTree's escaping is trusted. Requirement flags are classified as derived state. intelligent_choice=True is documented to restructure and is excluded.",
+        design='DESIGN.md section 4, C16'),
+})
+
 NOT_APPLICABLE = {
     'C02': "Acceptance and order preservation for every word of 94 regular languages is the run-time behaviour of a heuristic matcher (first-fit leaf choice, choice commitment, duplication) on a mutable tree; no structural rule bounds the reachable tree states, and running the matcher (concretely or symbolically) is a different technique family. The one structural by-product (an unimplemented branch reachable from a valid word) is reported under C19.",
     'C07': "'Every accepted state has a completion' is an existential claim per reachable matcher state; the reachable states are defined by execution histories, not by the shape of the code. The rejection points that exist are covered as ordering/atomicity obligations of C01/C10, which is not a verdict on C07.",
